@@ -103,8 +103,8 @@ def ut_traces(target, rng, n):
 
 def traces(target, rng, tier):
     if target.kind == "cw":
-        return cw_traces(rng, 30 if tier == "quick" else 300)
-    return ut_traces(target, rng, 20 if tier == "quick" else 200)
+        return cw_traces(rng, 30 if tier == "quick" else 120)
+    return ut_traces(target, rng, 20 if tier == "quick" else 80)
 
 
 # ---- obligations ------------------------------------------------------------------------------------
@@ -169,11 +169,11 @@ def obligations(targets, tier):
         else:
             obs.append(tie.rmon(
                 "rm_ut_conv", t, mon="conv_mon", m0="conv_init", alpha_bits=0,
-                alphabet=(ut_alphabet((0, 1), (0xC3,), dps=(1,)) if tier == "quick" else ut_alphabet((0, 1), (0xC3, 0x8A))), fuel=6000,
+                alphabet=(ut_alphabet((0, 1), (0xC3,), dps=(1,)) if tier == "quick" else ut_alphabet((0, 1), (0xC3,))), fuel=6000,
                 describe="UTMITranslator pins: write-correctness + convergence monitor (PHY register file observed at the pins; also run as "
                          "runtime oracle over closed-loop PHY traces with random control changes on all fields, transmissions, receive bursts) on every trace "
                          "over nxt, dir, tx_valid, term_select" + ("" if tier == "quick" else ", dp_pulldown") + " in {0,1}" +
-                         ("" if tier == "quick" else ", tx_data in {0xC3, 0x8A}") + ", PHY contract k_contract"))
+                         ", PHY contract k_contract"))
             obs.append(tie.rmon(
                 "rm_ut_arb", t, mon="arb_mon", m0="0", alpha_bits=0, alphabet=ut_alphabet((0, 1), (0xC3,)), fuel=6000,
                 describe="UTMITranslator: the register window is never active while the transmitter claims the bus or is inside a packet"))
